@@ -34,6 +34,7 @@ structure Data where
   msg : Nat      -- message id (first four payload bytes)
   len : Nat
   wobj : Nat     -- ghost: handle (at the sender) of the stream object that wrote it
+  gen : Nat := 0 -- ghost: incarnation number of that object
   deriving Repr, DecidableEq, Inhabited
 
 /-- pending-queue entry: a message or the end-of-stream marker `sendResetRequest` queues (nil user data) -/
@@ -82,8 +83,9 @@ structure Obj where
   ord : List QMsg := []   -- ordered messages, sorted by seq
   unord : List QMsg := [] -- complete unordered messages, arrival order
   -- ghost
+  gen : Nat := 0                   -- incarnation of the identifier this object belongs to
   wrote : List (Nat × Bool) := []  -- messages Write accepted on this object: (id, unordered), in order
-  got : List Nat := []             -- ids Read has returned, in order
+  got : List (Nat × Bool) := []    -- what Read has returned, in order: (id, came from the unordered queue)
   eofSeen : Bool := false          -- Read has returned EOF
   rx : List Chunk := []            -- every chunk handed to this object's reassembly queue
   deriving Repr, DecidableEq, Inhabited
@@ -176,10 +178,10 @@ def sortReplies (l : List Msg) : List Msg := l.foldl (fun acc m => insSorted m a
 /-! ### application calls -/
 
 /-- Go: OpenStream → getOrCreateStream(id, accept = false). Returns the handle and whether an object was created. -/
-def openStream (e : Ep) (sid : Nat) : Ep × Nat × Bool :=
+def openStream (e : Ep) (sid : Nat) (gen : Nat) : Ep × Nat × Bool :=
   match lookup sid e.reg with
   | some h => (e, h, false)
-  | none => ({ e with objs := e.objs ++ [{ sid := sid }], reg := insert sid e.objs.length e.reg }, e.objs.length, true)
+  | none => ({ e with objs := e.objs ++ [{ sid := sid, gen := gen }], reg := insert sid e.objs.length e.reg }, e.objs.length, true)
 
 /-- Go: Stream.packetize — which counter numbers the message, and the counters afterwards -/
 def seqOf (il : Bool) (o : Obj) (unord : Bool) : Nat :=
@@ -202,7 +204,7 @@ def write (e : Ep) (h len : Nat) (unord : Bool) (msg : Nat) : Ep × WriteRes :=
     else if len > e.mps then ({ e with unsup := true }, .unsupported)
     else
       let len := max len 4
-      let d : Data := { sid := o.sid, unord := unord, seq := seqOf e.il o unord, msg := msg, len := len, wobj := h }
+      let d : Data := { sid := o.sid, unord := unord, seq := seqOf e.il o unord, msg := msg, len := len, wobj := h, gen := o.gen }
       let o' := { bump e.il o unord with wrote := o.wrote ++ [(msg, unord)] }
       ({ e with objs := e.objs.set h o', pend := e.pend ++ [.data d] }, .ok len)
 
@@ -218,14 +220,14 @@ def close (e : Ep) (h : Nat) : Ep × Bool :=
 
 /-- Go: reassemblyQueue.read for complete single-chunk messages: unordered first, then the ordered head if it is
 not ahead of the cursor (an entry BELOW the cursor is handed out too — duplicates of an SSN are not filtered) -/
-def readOne (o : Obj) : Option (Nat × Obj) :=
+def readOne (o : Obj) : Option ((Nat × Bool) × Obj) :=
   match o.unord with
-  | q :: rest => some (q.msg, { o with unord := rest })
+  | q :: rest => some ((q.msg, true), { o with unord := rest })
   | [] =>
     match o.ord with
     | [] => none
     | q :: rest =>
-      if q.seq ≤ o.nextSeq then some (q.msg, { o with ord := rest, nextSeq := if q.seq = o.nextSeq then o.nextSeq + 1 else o.nextSeq })
+      if q.seq ≤ o.nextSeq then some ((q.msg, false), { o with ord := rest, nextSeq := if q.seq = o.nextSeq then o.nextSeq + 1 else o.nextSeq })
       else none
 
 /-- Go: repeated Stream.ReadSCTP until it would block or returns the read error -/
@@ -233,7 +235,7 @@ def drain : Nat → Obj → List Nat → Obj × List Nat
   | 0, o, acc => (o, acc)
   | fuel + 1, o, acc =>
     match readOne o with
-    | some (m, o') => drain fuel { o' with got := o'.got ++ [m] } (acc ++ [m])
+    | some (m, o') => drain fuel { o' with got := o'.got ++ [m] } (acc ++ [m.1])
     | none => (o, acc)
 
 /-- returns the ids read and whether the drain ended with EOF (`false`: it would block) -/
@@ -290,28 +292,35 @@ def mkDatas (sent : List Chunk) (pkts : List (List Nat)) : Option (List Msg) := 
 
 def reqOf (r : Nat × Nat × List Nat) : Msg := .req r.1 r.2.1 r.2.2
 
-/-- Go: gatherOutbound in state established: control queue, DATA (retransmissions and new chunks as the oracle
-bundled them), RECONFIG (retransmissions if the timer fired, then the request for the markers popped in this pass
-with senderLastTSN = myNextTSN − 1), fast retransmissions, SACK. `none`: the oracle is impossible. -/
+/-- the request created for the markers popped in one pass (ghost part: the objects they belong to) -/
+def newReqRec (e : Ep) (markers : List (Nat × Nat)) (next : Nat) : ReqRec :=
+  { rsn := e.nextRSN, last := next - 1, sids := markers.map (·.1), wobjs := markers.map (·.2) }
+
+/-- the endpoint after one pass of the write loop that took `popped` out of the pending queue and left `left` -/
+def gatherEp (e : Ep) (popped left : List Item) : Ep :=
+  let a := assign e.nextTSN popped
+  let e1 : Ep := { e with pend := left, sent := e.sent ++ a.1, nextTSN := a.2.2, ctl := [], wr := false }
+  if a.2.1.isEmpty then e1 else
+    { e1 with nextRSN := e.nextRSN + 1, reconfigs := e.reconfigs ++ [(e.nextRSN, a.2.2 - 1, a.2.1.map (·.1))],
+              reqLog := e.reqLog ++ [newReqRec e a.2.1 a.2.2] }
+
+/-- what that pass puts on the wire: control queue, DATA (retransmissions and new chunks as the oracle bundled them),
+RECONFIG (retransmissions if the timer fired, then the request for the markers popped in this pass with
+senderLastTSN = myNextTSN − 1), fast retransmissions, SACK -/
+def gatherOut (e : Ep) (popped : List Item) (preP postP : List Msg) (sack : Bool) : List Msg :=
+  let a := assign e.nextTSN popped
+  e.ctl ++ preP ++ (if e.wr then e.reconfigs.map reqOf else []) ++
+    (if a.2.1.isEmpty then [] else [.req e.nextRSN (a.2.2 - 1) (a.2.1.map (·.1))]) ++ postP ++ (if sack then [.sack e.cum] else [])
+
+/-- Go: gatherOutbound in state established. `none`: the oracle is impossible (an entry may not leave the queue yet,
+or a TSN named for retransmission was never sent). -/
 def gather (e : Ep) (sel : List Nat) (pre post : List (List Nat)) (sack : Bool) : Option (Ep × List Msg) :=
   match popSel e.il e.pend sel with
   | none => none
   | some (popped, left) =>
-    let a := assign e.nextTSN popped
-    let sent := e.sent ++ a.1
-    let markers := a.2.1
-    let next := a.2.2
+    let sent := e.sent ++ (assign e.nextTSN popped).1
     match mkDatas sent pre, mkDatas sent post with
-    | some preP, some postP =>
-      let rtx := if e.wr then e.reconfigs.map reqOf else []
-      let rsn := e.nextRSN
-      let sids := markers.map (·.1)
-      let newReq : List Msg := if markers.isEmpty then [] else [.req rsn (next - 1) sids]
-      let e1 : Ep := { e with pend := left, sent := sent, nextTSN := next, ctl := [], wr := false }
-      let e2 : Ep := if markers.isEmpty then e1 else
-        { e1 with nextRSN := rsn + 1, reconfigs := e1.reconfigs ++ [(rsn, next - 1, sids)],
-                  reqLog := e1.reqLog ++ [{ rsn := rsn, last := next - 1, sids := sids, wobjs := markers.map (·.2) }] }
-      some (e2, e.ctl ++ preP ++ rtx ++ newReq ++ postP ++ (if sack then [.sack e.cum] else []))
+    | some preP, some postP => some (gatherEp e popped left, gatherOut e popped preP postP sack)
     | _, _ => none
 
 /-- Go: onRetransmissionTimeout(timerReconfig) -/
@@ -390,7 +399,7 @@ def handleData (e : Ep) (c : Chunk) : Ep × List Msg :=
       | some h => some (e, h)
       | none =>
         if e.acq.length < e.accCap then
-          some ({ e with objs := e.objs ++ [{ sid := c.d.sid }], reg := insert c.d.sid e.objs.length e.reg,
+          some ({ e with objs := e.objs ++ [{ sid := c.d.sid, gen := c.d.gen }], reg := insert c.d.sid e.objs.length e.reg,
                          acq := e.acq ++ [e.objs.length] }, e.objs.length)
         else none
     match r with
@@ -454,8 +463,10 @@ structure Sys where
   b : Ep
   ha : List Msg := []
   hb : List Msg := []
-  taint : List Nat := []   -- ghost: identifiers re-opened before both directions had been reset
-  deriving Repr, Inhabited
+  taint : List Nat := []          -- ghost: identifiers re-opened before both directions had been reset
+  gen : Nat → Nat := fun _ => 0   -- ghost: number of incarnations of each identifier so far
+
+instance : Inhabited Sys := ⟨{ a := default, b := default }⟩
 
 inductive Op where
   | openS (x : Bool) (sid : Nat)            -- false = A, true = B
@@ -495,9 +506,12 @@ def Sys.quiet (s : Sys) (sid : Nat) : Bool := sideQuiet s.a s.b sid && sideQuiet
 
 def Sys.step (s : Sys) : Op → Sys
   | .openS x sid =>
-    let r := openStream (s.ep x) sid
+    let r := openStream (s.ep x) sid (s.gen sid + 1)
     let s1 := s.setEp x r.1
-    if r.2.2 && !s.quiet sid then { s1 with taint := sid :: s1.taint } else s1
+    if r.2.2 then
+      (if s.quiet sid then { s1 with gen := fun i => if i = sid then s.gen sid + 1 else s.gen i }
+       else { s1 with taint := sid :: s1.taint })
+    else s1
   | .write x h len unord msg => s.setEp x (write (s.ep x) h len unord msg).1
   | .close x h => s.setEp x (close (s.ep x) h).1
   | .gather x sel pre post sack =>
